@@ -19,7 +19,11 @@ META = {
             'The model is tied to the code by generated (pattern, message, attributes) triples run through the real '
             'PatternFormatter, and the extracted oracle is evaluated on the real output (text and null/non-null).  A concurrent leg '
             '(k threads, own formatter and messages each, start barrier) requires every result to equal the single-threaded model output; '
-            'it is probabilistic by nature.',
+            'it is probabilistic by nature.  A sequence leg lets ONE real PatternFormatter object format k >= 2 messages whose sets of present '
+            'attributes (and types) differ - the number of units a literal loses after adjacent optional attributes depends on the message at hand - and '
+            'requires every result to equal what a fresh formatter object gives for the same message object, what the extracted object machine '
+            '(calls_model: tokens + pending counter threaded through the calls) gives, and to pass the oracle; '
+            'C12_format_is_a_function_of_pattern_and_message / C12_call_result_independent_of_history prove that the machine is stateless across calls.',
     'note': 'Trusted: Coq 8.16.1 kernel (vm_compute only on closed examples / witnesses), no axioms; tools/s2c/pattern.py '
             '(regex translation of patternformatter.cpp and logmessage.h: placeholder names, type names, alignment '
             'characters, suffix/fill, mid() offsets, in-band marker vs out-of-band counter, statement shapes of the '
@@ -242,6 +246,77 @@ class Gen:
         self.hit('ntok-items:%d' % min(n, 10))
         return c
 
+    # ---- sequences: ONE formatter object, k >= 2 messages whose sets of present attributes differ ----
+    SEQ_NAMES = ['a', 'b', 'w', 'u', 'n', 'v']
+    SEQ_TAILS = ['::: ', '>>> ', 'abcdefgh', ' -- ', '[[[[', '12345', ZW + 'xyz ', '....', '%% %%>', '\U0001F600\U0001F600 ']
+
+    def seq_pattern(self):
+        r = self.rng
+        x = r.random()
+        if x < 0.7:
+            # the shape in which the number of units a literal loses depends on the message at hand: adjacent optional
+            # attributes with remove-after counts (some under a type condition), then a literal longer than the counts
+            names = r.sample(self.SEQ_NAMES, r.choice([2, 2, 2, 3, 3, 4]))
+            parts = [r.choice(['', '', '[', 'srv ', '%{type} ', '%{message} '])]
+            for n in names:
+                ph = '%{' + n + '?' + r.choice(['', '', '', '0', '1', '2']) + ',' + str(r.randint(1, 3)) + (self.spec() if r.random() < 0.1 else '') + '}'
+                if r.random() < 0.2:
+                    ph = '%{if-' + r.choice(['debug', 'info', 'warning']) + '}' + ph + '%{endif}'
+                parts.append(ph)
+            parts.append(r.choice(self.SEQ_TAILS))
+            parts.append(r.choice(['%{message}', '%{message}', '', '%{type}', '%{category}']))
+            if r.random() < 0.4:
+                parts.append(''.join(self.item() for _ in range(r.randint(1, 4))))
+            self.hit('seq:adjacent-optional-then-literal')
+            return ''.join(parts)
+        if x < 0.85:
+            # several optional attributes spread over the pattern, literals between them
+            n = r.randint(2, 5)
+            self.hit('seq:spread-optional')
+            return ''.join(r.choice(LITS + ['ab', 'abc', 'abcd']) + '%{' + r.choice(self.SEQ_NAMES) + '?' + self.count() + ',' + self.count() + '}' + r.choice(['', 'xyz', '] ', '::::'])
+                           for _ in range(n)) + r.choice(['', '%{message}'])
+        self.hit('seq:random-pattern')
+        return ''.join(self.item() for _ in range(r.choice([1, 2, 3, 4, 5, 6, 8])))
+
+    def seq_attrs(self):
+        r = self.rng
+        attrs = []
+        for k in self.SEQ_NAMES + ['user', 'seq_number']:
+            if r.random() < 0.5:
+                if k == 'n':
+                    attrs.append([k, 'i', r.choice([0, 7, 42, -7])])
+                elif k == 'b':
+                    attrs.append([k, 'b', r.choice([0, 1])])
+                else:
+                    attrs.append([k, 's', r.choice(['A', 'srv', 'x', 'admin', '', ZW, 'a b']) if r.random() < 0.8 else self.value()])
+        return attrs
+
+    def sequence(self):
+        """k >= 2 messages for one formatter object: same pattern; attribute sets (and, half of the time, types) differ"""
+        r = self.rng
+        pat = self.seq_pattern()
+        k = r.choice([2, 2, 3, 3, 3, 4, 4, 5, 6, 8])
+        same_type = r.random() < 0.5
+        t0 = r.randrange(5)
+        same_text = r.random() < 0.5
+        m0 = r.choice(['m', 'hello', 'payload'])
+        ms = []
+        for tries in range(6):
+            ms = []
+            for j in range(k):
+                c = {'pat': pat, 'type': t0 if same_type else r.randrange(5), 'msg': m0 if same_text else self.value(), 'cat': r.choice(CATS[:3]),
+                     'file': r.choice(FILES[:3]), 'fn': r.choice(FUNCS[:3]), 'line': r.choice([42, 1]), 'attrs': self.seq_attrs(), 'seq': j}
+                x = r.random()
+                if x < 0.05:
+                    c['prefmt'] = r.choice(['FORMATTED', '', '[info] x'])
+                elif x < 0.12:
+                    c['twice'] = True
+                ms.append(c)
+            if len({tuple(sorted(a[0] for a in c['attrs'])) for c in ms}) > 1:
+                break
+        self.hit('seq:k=%d' % k)
+        return ms
+
 
 def case_env(c):
     """time formats the environment must render: the fixed pool plus whatever follows 'time ' in the pattern"""
@@ -270,6 +345,8 @@ def impl_line(c):
         f += [hx(k), (t + hx(v)) if t == 's' else (t + str(v))]
     f += [str(len(ENVF))] + [hx(t) for t in ENVF]
     f += [hx(c.get('prefmt')), '1' if c.get('twice') else '0']
+    if 'seq' in c:
+        f += [str(c['seq'])]        # position in a sequence of messages formatted by ONE formatter object (0 = new object)
     return ' '.join(f)
 
 
@@ -277,7 +354,8 @@ def model_line(c, impl_out):
     """impl_out: the harness's output line -> (model input line, implementation's formatted text as hex) or None"""
     p = impl_out.split(' ')
     ENVF = case_env(c)
-    if len(p) != 5 + len(ENVF) or p[0].startswith('!'):
+    nseq = 1 if 'seq' in c else 0     # one more group: '=' / '#<what a fresh formatter object gave>'
+    if len(p) != 5 + len(ENVF) + nseq or p[0].startswith('!'):
         return None, None
     out, nul, tid, ptr, fnc = p[0], p[1], int(p[2]), int(p[3]), p[4]
     f = [hx(c['pat']), str(c['type']), hx(c['msg']), hx(c['cat']), hx(c['file']), hx(c['fn']), fnc, str(c['line']),
@@ -285,9 +363,11 @@ def model_line(c, impl_out):
     for k, t, v in c['attrs']:
         f += [hx(k), (t + hx(v)) if t == 's' else (t + str(v))]
     f += [str(len(ENVF))]
-    for t, r in zip(ENVF, p[5:]):
+    for t, r in zip(ENVF, p[5:5 + len(ENVF)]):
         f += [hx(t), r]
     f += [out, nul]
+    if nseq:
+        f += [str(c['seq'])]
     return ' '.join(f), out + ('/null' if nul == 'N' else '')
 
 
@@ -305,6 +385,9 @@ def evaluate(cases, impl, model):
         else:
             mlines.append(ml); idx.append(i)
             res[i] = {'crashed': False, 'impl': out}
+            if 'seq' in c:
+                fr = o.split(' ')[-1]
+                res[i]['fresh'] = out if fr == '=' else fr[1:]      # what a fresh formatter object gives for the same message object
     rc2, mo, err2 = vlib.run_lines(model, mlines, ['check'], timeout=900)
     if rc2 != 0 or len(mo) != len(mlines):
         raise RuntimeError('model driver failed: rc=%s %s' % (rc2, err2[-500:]))
@@ -395,13 +478,160 @@ def concurrent_leg(chk, cases, impl, model, threads, rounds, maxms):
             'note': 'probabilistic leg: a data race shows only under some interleavings; the seeded shared-counter patch '
                     '(seeded/C12-ind-r2-3) gives wrong results within the first thousands of calls on this machine'}
 
+def renumber(seq):
+    return [dict(c, seq=j) for j, c in enumerate(seq)]
 
-def load_corpus():
+
+def eval_sequences(seqs, impl, model):
+    """all sequences through ONE run of the harness / the model driver (each sequence starts with seq=0 = a new formatter
+    object); returns one list of result dicts per sequence"""
+    flat = [c for sq in seqs for c in sq]
+    res = evaluate(flat, impl, model) if flat else []
+    out, i = [], 0
+    for sq in seqs:
+        out.append(res[i:i + len(sq)]); i += len(sq)
+    return out
+
+
+def stateful_members(rs):
+    """members whose result on the kept object is not what a fresh formatter object gives for the same message"""
+    return [j for j, r in enumerate(rs) if not r['crashed'] and r.get('fresh') is not None and r['fresh'] != r['impl']]
+
+
+def shrink_sequence(seq, impl, model):
+    def bad(sq):
+        sq = renumber(sq)
+        return len(sq) >= 1 and bool(stateful_members(eval_sequences([sq], impl, model)[0]))
+    cur = vlib.shrink_list(list(seq), bad, max_steps=60)
+    pat = ''.join(vlib.shrink_list(list(cur[0]['pat']), lambda ch: bad([dict(c, pat=''.join(ch)) for c in cur]), max_steps=200))
+    cur = [dict(c, pat=pat) for c in cur]
+    for j in range(len(cur)):
+        def with_j(**kw):
+            return cur[:j] + [dict(cur[j], **kw)] + cur[j + 1:]
+        cur[j]['attrs'] = vlib.shrink_list(cur[j]['attrs'], lambda a: bad(with_j(attrs=a)), max_steps=30)
+        for key, simple in (('msg', 'm'), ('type', 0), ('cat', 'default'), ('file', 'c.cpp'), ('fn', 'void f()'), ('line', 42)):
+            if cur[j].get(key) != simple and bad(with_j(**{key: simple})):
+                cur[j][key] = simple
+        for key in ('prefmt', 'twice'):
+            if key in cur[j]:
+                d = dict(cur[j]); d.pop(key)
+                if bad(cur[:j] + [d] + cur[j + 1:]):
+                    cur[j] = d
+    return renumber(cur)
+
+
+def describe_sequence(seq, rs):
+    return [{'call': j + 1, 'message': c['msg'], 'type': c['type'], 'attributes': c['attrs'],
+             'pre_formatted_with': c.get('prefmt'), 'formatted_twice': bool(c.get('twice')),
+             'kept_object_output': unhx(r.get('impl', '')) if not r['crashed'] else r.get('impl_raw'),
+             'fresh_object_output': unhx(r.get('fresh', '')), 'model_output': unhx(r.get('model', '')),
+             'documented_concatenation': unhx(r.get('full', '')), 'active_removing_optional_attributes': r.get('nrem'),
+             'oracle_holds_on_kept_object_output': r.get('oracle')} for j, (c, r) in enumerate(zip(seq, rs))]
+
+
+def missing_sets(sq):
+    return {tuple(sorted(a[0] for a in c['attrs'])) for c in sq}
+
+
+def sequence_leg(chk, g, seqs, impl, model, ncorpus=0):
+    """ONE PatternFormatter object formats k >= 2 messages whose attribute sets differ.  Every result must be (1) what a
+    fresh formatter object gives for the very same message object (checked inside the harness, no model involved),
+    (2) what the extracted object machine (calls_model) gives, (3) accepted by the extracted oracle for that message."""
+    rss = eval_sequences(seqs, impl, model)
+    crashed, stateful, single_bad, differs = [], [], [], []
+    nmsg = 0
+    hist_k, hist_tok, hist_rem = {}, {}, {}
+    distinct_out = 0
+    for si, (sq, rs) in enumerate(zip(seqs, rss)):
+        nmsg += len(sq)
+        hist_k[min(len(sq), 8)] = hist_k.get(min(len(sq), 8), 0) + 1
+        if any(r['crashed'] for r in rs):
+            crashed.append(si); continue
+        if stateful_members(rs):
+            stateful.append(si); continue
+        for j, r in enumerate(rs):
+            if r['envmiss']:
+                continue
+            hist_rem[min(r['nrem'], 4)] = hist_rem.get(min(r['nrem'], 4), 0) + 1
+            if not r['oracle']:
+                single_bad.append((si, j))
+            elif r['impl'] != r['model']:
+                differs.append((si, j))
+        hist_tok[min(rs[0]['ntok'], 12)] = hist_tok.get(min(rs[0]['ntok'], 12), 0) + 1
+        if len({r['impl'] for r in rs}) > 1:
+            distinct_out += 1
+    if crashed:
+        si = crashed[0]
+        j = [r['crashed'] for r in rss[si]].index(True)
+        chk.fail('the formatter threw / the harness died while one formatter object formatted a sequence of messages (call %d)' % (j + 1),
+                 {'kind': 'crash', 'sequence': seqs[si], 'pattern': seqs[si][0]['pat'], 'raw': rss[si][j].get('impl_raw')}, kind='crash')
+    if stateful:
+        si = min(stateful, key=lambda i: (i >= ncorpus, len(seqs[i]), len(seqs[i][0]['pat'])))
+        small = shrink_sequence(seqs[si], impl, model)
+        rs = eval_sequences([small], impl, model)[0]
+        bad = stateful_members(rs)
+        if not bad:                       # (cannot happen: the shrinker only keeps failing sequences)
+            small = renumber(seqs[si]); rs = rss[si]; bad = stateful_members(rs)
+        j = bad[0]
+        r = rs[j]
+        chk.fail('format() is not a function of (pattern, message): ONE PatternFormatter object with pattern %r formats %d message(s) in a row; '
+                 'call %d (message %r, attributes %r) returns %r, while a fresh formatter object gives %r for the same message '
+                 '(model %r, documented concatenation %r; the extracted oracle %s the returned text); earlier calls had attributes %r'
+                 % (small[0]['pat'], len(small), j + 1, small[j]['msg'], small[j]['attrs'], unhx(r['impl']), unhx(r['fresh']), unhx(r.get('model', '')),
+                    unhx(r.get('full', '')), 'accepts' if r.get('oracle') else 'REJECTS', [c['attrs'] for c in small[:j]]),
+                 {'kind': 'sequence', 'pattern': small[0]['pat'], 'sequence': small, 'failing_call': j + 1, 'calls': describe_sequence(small, rs),
+                  'got': unhx(r['impl']), 'fresh_formatter_object_gives': unhx(r['fresh']), 'model_output': unhx(r.get('model', '')),
+                  'oracle_holds_on_got': r.get('oracle'), 'sequences_with_history_dependent_results': len(stateful),
+                  'has_zero_width_space': ZW in small[0]['pat'] + ''.join((c['msg'] or '') for c in small)}, kind='sequence')
+    if single_bad and not chk.failing:
+        # the same (wrong) text with a fresh object: an ordinary single-message falsification, found through a sequence
+        si, j = min(single_bad, key=lambda t: len(seqs[t[0]][0]['pat']))
+        c = {k: v for k, v in seqs[si][j].items() if k != 'seq'}
+
+        def bad1(c1):
+            r1 = evaluate([c1], impl, model)[0]
+            return (not r1['crashed']) and not r1['envmiss'] and not r1['oracle']
+        if bad1(c):
+            small = shrink(c, impl, model, bad1)
+            r = evaluate([small], impl, model)[0]
+            cls = 'removal' if r['nrem'] > 0 else 'verbatim'
+            chk.fail('output is not what the documented rules prescribe: pattern %r message %r attributes %r -> %r, documented %r'
+                     % (small['pat'], small['msg'], small['attrs'], unhx(r['impl']), unhx(r['full'])),
+                     dict(describe(small, r), kind=cls, found_in='sequence leg', model_disagrees=r['impl'] != r['model']), kind=cls)
+        else:
+            r = rss[si][j]
+            chk.fail('call %d of a sequence on one formatter object returns a text the documented rules do not allow' % (j + 1),
+                     {'kind': 'sequence', 'pattern': seqs[si][0]['pat'], 'sequence': seqs[si], 'failing_call': j + 1,
+                      'calls': describe_sequence(seqs[si], rss[si]), 'got': unhx(r['impl'])}, kind='sequence')
+    if differs and not chk.failing and not chk.broken:
+        si, j = min(differs, key=lambda t: len(seqs[t[0]][0]['pat']))
+        r = rss[si][j]
+        chk.broke('correspondence (sequence leg): the object machine of the model and the kept PatternFormatter differ on %d calls (oracle holds, a fresh object agrees '
+                  'with the kept one), e.g. pattern %r call %d: implementation %r model %r' % (len(differs), seqs[si][0]['pat'], j + 1, unhx(r['impl']), unhx(r['model'])),
+                  {'kind': 'correspondence', 'sequence': seqs[si], 'failing_call': j + 1, 'calls': describe_sequence(seqs[si], rss[si])})
+    return {'sequences': len(seqs), 'calls': nmsg, 'corpus_sequences': ncorpus,
+            'rule': 'one PatternFormatter object per sequence, k messages with the same pattern; the sets of present attributes differ between the '
+                    'messages (types and texts in half of the sequences); 70% of the patterns: adjacent optional attributes with remove-after '
+                    'counts (some under a type condition) followed by a literal longer than the counts',
+            'sequences_with_differing_attribute_sets': sum(1 for sq in seqs if len(missing_sets(sq)) > 1),
+            'sequences_with_at_least_two_distinct_outputs': distinct_out,
+            'history_dependent_results': len(stateful), 'oracle_falsified_calls': len(single_bad), 'model_differs_calls': len(differs), 'crashed_sequences': len(crashed),
+            'length_histogram': {str(k): v for k, v in sorted(hist_k.items())},
+            'tokens_histogram': {str(k): v for k, v in sorted(hist_tok.items())},
+            'active_removing_optional_attributes_histogram': {str(k): v for k, v in sorted(hist_rem.items())}}
+
+
+def load_corpus(sequences=False):
+    """single cases ({'case': ...}) or, with sequences=True, the recorded sequences ({'sequence': [case, ...]})"""
     cs = []
     for p in sorted(glob.glob(os.path.join(vlib.VERIF, 'corpus', 'C12', '*.json'))):
         try:
             d = json.load(open(p))
-            cs.append(d['case'] if 'case' in d else d)
+            if 'sequence' in d:
+                if sequences:
+                    cs.append(renumber(d['sequence']))
+            elif not sequences:
+                cs.append(d['case'] if 'case' in d else d)
         except Exception:
             pass
     return cs
@@ -418,6 +648,7 @@ def run():
     chk.assumptions = ['widths are capped at %d in generated patterns (F6: width near INT_MAX -> bad_alloc is C14\'s finding)' % MAXW,
                        'category/file/function are printable ASCII (the property\'s quantifier)',
                        'attribute values are strings, ints or bools (QVariant::toString of other types is outside the model)',
+                       'sequence leg: the messages of a sequence are formatted on one thread, one after the other (sharing one formatter between threads is outside C12)',
                        'concurrent leg: formatters and messages are per thread (no object is shared); it is a stress test, not a proof of thread safety',
                        'messages and values are well-formed UTF-16 (truncation may still cut a surrogate pair, as documented in the model)']
     chk.proof(vlib.proof_leg('Properties_C12', ['pattern']))
@@ -511,6 +742,11 @@ def run():
         'outputs_exactly_documented_concatenation': sum(1 for i in ok if res[i]['impl'] == res[i]['full']),
         'cases_with_zero_width_space_in_values': sum(1 for c in cases if ZW in (c['msg'] or '') or any(ZW in str(a[2] or '') for a in c['attrs'])),
         'generator_histogram': dict(sorted(g.hist.items()))})
+    cseqs = load_corpus(sequences=True)
+    seqs = cseqs + [g.sequence() for _ in range(12000 if thorough else 1500)]
+    chk.cov['sequence_leg'] = sequence_leg(chk, g, seqs, impl, model, len(cseqs))
+    chk.cov['evaluations'] = len(cases) + chk.cov['sequence_leg']['calls']
+    chk.cov['generator_histogram'] = dict(sorted(g.hist.items()))
     cc = concurrent_cases(g, 32)
     chk.cov['concurrent_leg'] = concurrent_leg(chk, cc, impl, model, 8 if thorough else 4, 2000000 if thorough else 40000, 15000 if thorough else 1500)
     if thorough:
@@ -518,6 +754,15 @@ def run():
         sub = cases[:20000]
         rs = evaluate(sub, san, model)     # compared with the model under ITS OWN environment (time, thread id differ between runs)
         bad = [i for i, r in enumerate(rs) if r['crashed'] or (not r['envmiss'] and (r['impl'] != r['model'] or not r['oracle']))]
+        srs = eval_sequences(seqs[:2000], san, model)
+        sbad = [k for k, rs in enumerate(srs) if any(r['crashed'] for r in rs) or stateful_members(rs)
+                or any((not r['envmiss']) and (r['impl'] != r['model'] or not r['oracle']) for r in rs)]
+        chk.cov['sanitizer_build_sequences'] = len(srs)
+        if sbad:
+            k = sbad[0]
+            chk.fail('the ASan/UBSan build reports an error or prints something else while one formatter object formats a sequence of messages',
+                     {'kind': 'sanitizer', 'sequence': seqs[k], 'calls': describe_sequence(seqs[k], srs[k]),
+                      'raw': [r.get('impl_raw') for r in srs[k] if r['crashed']][:1]}, kind='sanitizer')
         chk.cov['sanitizer_build_cases'] = len(sub)
         chk.cov['sanitizer_build_differences'] = len(bad)
         if bad:
@@ -541,6 +786,18 @@ def replay(path):
         print(json.dumps(concurrent_leg(chk, r['cases'], impl, model, r.get('threads', 4), r.get('rounds', 40000), r.get('max_ms', 1500)), indent=1))
         for w, _ in chk.failing + chk.broken:
             print(w)
+        return 0
+    if r.get('sequence'):
+        vlib.gen_src(['pattern'])
+        model = vlib.build_model('pattern'); impl = vlib.build_harness('pattern')
+        sq = renumber(r['sequence'])
+        rs = eval_sequences([sq], impl, model)[0]
+        print('pattern        %r   (ONE PatternFormatter object, %d calls)' % (sq[0]['pat'], len(sq)))
+        for d in describe_sequence(sq, rs):
+            print('call %d: message %r type=%d attributes=%r' % (d['call'], d['message'], d['type'], d['attributes']))
+            print('   kept object  %r' % d['kept_object_output'])
+            print('   fresh object %r%s' % (d['fresh_object_output'], '' if d['fresh_object_output'] == d['kept_object_output'] else '   <-- DIFFERS: format() is not a function of (pattern, message)'))
+            print('   model        %r   documented %r   oracle %s' % (d['model_output'], d['documented_concatenation'], 'holds' if d['oracle_holds_on_kept_object_output'] else 'FALSIFIED'))
         return 0
     c = r.get('case')
     if not c:
